@@ -1,8 +1,14 @@
+#[cfg(not(may_verif))]
 use std::sync::atomic::{AtomicUsize, Ordering};
+#[cfg(may_verif)]
+use crate::verif::atomic::{AtomicUsize, Ordering};
 
 use crate::config::config;
 use crate::coroutine_impl::CoroutineImpl;
+#[cfg(not(may_verif))]
 use crossbeam::queue::SegQueue;
+#[cfg(may_verif)]
+use crate::verif::SegQueue;
 use generator::Gn;
 
 /// the raw coroutine pool, with stack and register prepared
